@@ -29,7 +29,7 @@ KEYWORDS = {"SELECT", "FROM", "WHERE", "AND", "OR", "NOT", "IS", "NULL", "IN", "
             "DESC", "LIMIT", "INSERT", "INTO", "VALUES", "UPDATE", "SET", "DELETE", "DISTINCT",
             "COUNT", "PRAGMA", "CREATE", "TABLE", "INDEX", "ON", "BEGIN", "COMMIT", "TRANSACTION",
             "PRIMARY", "KEY", "AUTOINCREMENT", "REFERENCES", "AS", "END", "UNIQUE", "IF", "EXISTS",
-            "DROP", "REPLACE", "ALTER", "ROLLBACK"}
+            "DROP", "REPLACE", "ALTER", "ROLLBACK", "UNION", "ALL"}
 
 
 def strip_comments(sql):
@@ -229,6 +229,13 @@ class P:
     def statement(self):
         if self.at("kw", "SELECT"):
             s = self.select()
+            arms = [s]
+            kinds = []
+            while self.kw("UNION"):
+                kinds.append("all" if self.kw("ALL") else "distinct")
+                arms.append(self.select())
+            if len(arms) > 1:
+                s = ("compound", arms, kinds)
         elif self.kw("INSERT", "INTO"):
             table = self.ident()
             self.need_op("(")
@@ -712,9 +719,11 @@ class RelStore:
 
     def _run(self, st, params, sql, script):
         k = st[0]
-        self.stmt_log.append((k, sql))
+        self.stmt_log.append((k if k != "compound" else "select", sql))
         if k == "select":
             return self._select(st, params)
+        if k == "compound":
+            return self._compound(st, params)
         if k == "insert":
             if not script:
                 self._begin_implicit()
@@ -854,6 +863,51 @@ class RelStore:
                     ok = z3.Or(*parent) if parent else z3.BoolVal(False)
                     out.append((z3.simplify(z3.And(r.p, z3.Not(r.n[c]), z3.Not(ok))), "%s.%s" % (t, c)))
         return out
+
+    def _compound(self, st, params):
+        """SELECT ... UNION [ALL] SELECT ...: arms evaluated in order; plain UNION removes duplicates
+        (and, like SQLite, hands them back sorted by the first column)"""
+        _, arms, kinds = st
+        # parameters are numbered across the whole statement
+        cursors = [self._select(a, params) for a in arms]
+        store = self
+
+        def all_rows():
+            out = []
+            first_names = None
+            for cur in cursors:
+                rows = cur.fetchall()
+                for r in rows:
+                    names = list(r)
+                    if first_names is None:
+                        first_names = names
+                    if len(names) != len(first_names):
+                        raise sqlite3.OperationalError("SELECTs to the left and right of UNION do not have the same number of result columns")
+                    out.append(r if names == first_names else _renamed(r, first_names))
+            if any(k == "distinct" for k in kinds):
+                if first_names is None or len(first_names) != 1:
+                    if out:
+                        raise Unsupported("UNION (distinct) over more than one column")
+                    return out
+                c = first_names[0]
+                res, seen = [], []
+                for v in out:
+                    x = v[c]
+                    dup = False
+                    for y in seen:
+                        if x is None or y is None:
+                            dup = dup or (x is None and y is None)
+                            continue
+                        e_ = (x == y)
+                        if e_ is True or (e_ is not False and bool(e_)):
+                            dup = True
+                            break
+                    if not dup:
+                        seen.append(x)
+                        res.append(v)
+                out = sort_views(res, c, False)
+            return out
+        return Cursor(self, None, lazy=all_rows)
 
     def _select(self, st, params):
         _, what, table, where, order, limit = st
@@ -1061,6 +1115,13 @@ class RelStore:
 
     def snapshot(self):
         return Snapshot(self)
+
+
+def _renamed(view, names):
+    """a UNION arm's row under the column names of the first arm"""
+    old = list(view)
+    return RowView(view._t, {n: view._v[o] for n, o in zip(names, old)}, {n: view._n[o] for n, o in zip(names, old)},
+                   list(names), {n: view._k.get(o) for n, o in zip(names, old)})
 
 
 def default_term(sort):
